@@ -1190,7 +1190,11 @@ func runC13(e *Env) {
 		"Command-line stage (classes cli:*, c13_cli.go): the real `thru host` binary in a working directory of its own against a real thruserv, given names an argument pre-processor might interpret " +
 		"(glob metacharacters, backslash escapes, braces, ~, $VAR, list separators, surrounding white space / quotes, @file, percent escapes, leading dash, size-like tokens, equal base names in unsorted argument order) " +
 		"next to the siblings the interpretation would pick up, as file or directory, typed relative / with ./ / absolute, alone or with a partner; the manifest announced to a joining receiver (id, totals, counts, root) " +
-		"must be that of the real ScanPaths on the arguments as typed (reference child process, judged by the walk oracle too); a run counts when the announced summary was read; distinct by (class, placement, kind, case)"
+		"must be that of the real ScanPaths on the arguments as typed (reference child process, judged by the walk oracle too); a run counts when the announced summary was read; distinct by (class, placement, kind, case). " +
+		"Sharing stage (classes shared-resolver:*, c13_shared.go): 2..6 shared paths (distinct base names / equal base names / both, a single file among them) holding the same relative names with other bytes; " +
+		"after the walk oracle the host's ONE buildPathResolver value answers a first receiver alone (fixes the source of every file item by size and mtime), then, in blocks repeated until 600 receivers had the loop of another slot advance during their own (a count of events; at least 6, at most 100 blocks), k=2..4 transfer slots released together " +
+		"that each serve 200 queued receivers one after the other, every receiver resolving every file item in manifest order as SendManifestMultiStream does at its start, then a receiver alone; every answer must name the item's source (same path or same file); " +
+		"finally k real concurrent transfers over the mock transport with that resolver installed, output tree vs the sources; a case counts when its blocks ran; distinct by (root layout, k, case)"
 
 	var mu sync.Mutex
 	agg := map[string]*c13Agg{}
@@ -1352,6 +1356,9 @@ func runC13(e *Env) {
 	}
 	<-spellDone
 	<-cliDone
+	// the sharing dimension (c13_shared.go): the host's ONE resolver answering several receivers
+	// at the same time; run when nothing else in this process competes for the processors
+	shared := c13RunShared(e, work)
 
 	// samples: real cases with what was observed, clean classes first
 	for _, k := range []string{"paths:dup-basename", "spell:dot", "paths:same-path-twice", "entry:fifo", "spell:sub-dotdot", "paths:path-and-subdir",
@@ -1416,4 +1423,5 @@ func runC13(e *Env) {
 	e.R.Require(special["fifo"] > 0 && special["symlink-file"] > 0, "no FIFO / symlink entry was ever listed: special-entry clause not exercised")
 	c13SpellFinish(e, spell)
 	c13HistFinish(e, hs)
+	c13SharedFinish(e, shared)
 }
